@@ -290,7 +290,7 @@ func cbSideEffect(mode int, site uint32) error {
 	case cbReenter:
 		Count("cb_reenter")
 		b, err := gojson.Marshal(map[string]interface{}{"re": []int{1, 2, 3}, "s": Small{A: 7, B: "re<enter>", C: true}})
-		if err != nil || string(b) != `{"re":[1,2,3],"s":{"A":7,"B":"re<enter>","C":true}}` {
+		if err != nil || string(b) != `{"re":[1,2,3],"s":{"A":7,"B":"re\u003center\u003e","C":true}}` {
 			panic(fmt.Sprintf("reentrant marshal wrong: %s %v", b, err))
 		}
 		var s Small
